@@ -170,7 +170,9 @@ static void roundtrip(int fid, int nextmode, uint32_t param, uint64_t seed, cons
 	const char *why = NULL;
 	// single call
 	if (coder_init(&c, fid, true, 1, param) != LZMA_OK) { coder_end(&c); printf("0 init\n"); return; }
-	if (run_slices(&c, data, n, "1000000000:1000000000:3", 0, false, &one) != LZMA_STREAM_END) why = "single-call-not-finished";
+	char whole[64];
+	snprintf(whole, sizeof(whole), "%zu:%zu:3", n, n);
+	if (run_slices(&c, data, n, whole, 0, false, &one) != LZMA_STREAM_END) why = "single-call-not-finished";
 	coder_end(&c);
 	// sliced encode
 	coder_init(&c, fid, true, nextmode, param);
